@@ -869,6 +869,7 @@ def smt_expr_to_str(  # noqa: C901
         z3.Z3_OP_RE_CONCAT: "re.++",
         z3.Z3_OP_STR_TO_INT: "str.to.int",
         # <- Different from standard SMT-LIB (Z3 version)
+        z3.Z3_OP_ITE: "ite",  # z3's declaration name is "if"
     }
 
     if z3.is_var(f):
